@@ -864,8 +864,9 @@ def ofm_batch_above_one(o):
 
 
 def lowered_then_reshaped(o):
-    """kind of a source operator with its own lowering (MEAN, RESIZE_*, AVERAGE_POOL_2D with a stride above 3) whose output is
-    consumed by a memory-only operator, or None"""
+    """kind of a source operator with its own lowering (SQUARED_DIFFERENCE, PRELU) whose output is consumed by a memory-only
+    operator, or None. (MEAN, RESIZE_*, wide-stride AVERAGE_POOL_2D were repaired: fc368d6, 2336257, 8bc6c2d; their corpus
+    networks stay as regression tests.)"""
     g = o.get("src_graph") or []
     consumers = {}
     for kind, ins, outs, faf, pad, stride in g:
@@ -873,16 +874,10 @@ def lowered_then_reshaped(o):
             consumers.setdefault(t, []).append(kind)
     for kind, ins, outs, faf, pad, stride in g:
         if any(c in MEMORY_ONLY for c in consumers.get(outs[0], [])):
-            if kind == "MEAN":
-                return "mean"
             if kind == "SQUARED_DIFFERENCE":
                 return "squared-difference"
             if kind == "PRELU":
                 return "prelu"
-            if kind in ("RESIZE_BILINEAR", "RESIZE_NEAREST_NEIGHBOR"):
-                return "resize"
-            if kind == "AVERAGE_POOL_2D" and stride > 3:
-                return "wide-stride-avgpool"
     return None
 
 
